@@ -582,7 +582,7 @@ def grow_only_lengths(ctx, facts, cfg):
                 continue
             n += 1
             d = t['dest']['l']
-            flow = core.forward_flow(body, {d}, through_calls=None)
+            flow = core.forward_flow(body, {d}, through_calls=None, whole_only=True)
             bad = None
             cmp_locals = set()
             for bb in range(body.n):
